@@ -35,6 +35,7 @@ type Keys struct {
 	macroKeys []rune      // Keys that have been fed by a macro.
 	feeds     int         // Feeds made since the keys were last all used.
 	typed     int         // Keys read from the terminal since then: each may run a macro.
+	partial   []byte      // First bytes of a character read without its last ones.
 	mustWait  bool        // Keys are in the stack, but we must still read stdin.
 	waiting   bool        // Currently waiting for keys on stdin.
 	reading   bool        // Currently reading keys out of the main loop.
@@ -104,7 +105,10 @@ func WaitAvailableKeys(keys *Keys, cfg *inputrc.Config) error {
 			// When convert-meta is on, any meta-prefixed bind should
 			// be stripped and replaced with an escape meta instead.
 			if keys.cfg != nil && keys.cfg.GetBool("convert-meta") {
-				keyBuf = []byte(strutil.ConvertMeta([]rune(string(keyBuf))))
+				keyBuf = keys.convertMeta(keyBuf)
+				if len(keyBuf) == 0 {
+					continue
+				}
 			}
 
 			keys.mutex.Lock()
@@ -115,6 +119,30 @@ func WaitAvailableKeys(keys *Keys, cfg *inputrc.Config) error {
 
 		return nil
 	}
+}
+
+// convertMeta converts the Meta characters found in the keys just read.
+// A character whose last bytes have not been read yet is kept for the next
+// read: decoded without them, its first bytes would be replaced, and the
+// character typed would depend on how the terminal input was split.
+func (k *Keys) convertMeta(read []byte) []byte {
+	read = append(k.partial, read...)
+	k.partial = nil
+
+	for pos := len(read) - 1; pos >= 0 && pos > len(read)-utf8.UTFMax; pos-- {
+		if !utf8.RuneStart(read[pos]) {
+			continue
+		}
+
+		if !utf8.FullRune(read[pos:]) {
+			k.partial = append(k.partial, read[pos:]...)
+			read = read[:pos]
+		}
+
+		break
+	}
+
+	return []byte(strutil.ConvertMeta([]rune(string(read))))
 }
 
 // PopKey is used to pop a key off the key stack without
